@@ -28,7 +28,7 @@ type c12Slot struct {
 }
 
 var c12Modes = []string{"compiled x shared document", "compiled x per-goroutine documents", "one-shot Search x shared document", "concurrent Compile/MustCompile", "NewParser per goroutine",
-	"compiled x shared Go-struct document", "one-shot Search x shared Go-struct document", "one-shot Search x many distinct expressions in rotation", "compiled x different documents, some failing, several calls per goroutine", "compiled x prefix views of one list (same first element, different lengths)"}
+	"compiled x shared Go-struct document", "one-shot Search x shared Go-struct document", "one-shot Search x many distinct expressions in rotation", "compiled x different documents, some failing, several calls per goroutine", "compiled x prefix views of one list (same first element, different lengths)", "compiled x shared Go-struct document next to parses of never-seen expressions"}
 
 func gcd(a, b int) int {
 	for b != 0 {
@@ -140,7 +140,7 @@ func c12Exprs(seed uint64) []*gen.Expr {
 }
 
 func c12(r *mon.Run) {
-	r.Rule = "rounds of N in {2,4,16} goroutines released together (GOMAXPROCS 2 and 16), with no synchronisation between them until they are joined: (a) one compiled expression on one shared document, (b) one compiled expression on per-goroutine documents, (c) the one-shot Search on a shared document, (d) concurrent Compile / MustCompile of the same and of different expressions, (e) NewParser per goroutine, (f) a freshly compiled expression and (g) the one-shot Search on a shared Go-struct document (reflection paths; the first calls on a type are the concurrent ones), (h) the one-shot Search with 70 / 140 / 300 distinct expressions in rotation, every goroutine in its own order (package-level caches see hits, misses and evictions at once), (i) one compiled expression whose wildcard / projection right-hand side fails on a quarter of 8 documents, 12 calls per goroutine over those documents (error paths of one call meet the scratch state of another), (j) one compiled expression on documents that are prefixes of one list (same address, different lengths: whatever identifies the same call must look at all of the document); " +
+	r.Rule = "rounds of N in {2,4,16} goroutines released together (GOMAXPROCS 2 and 16), with no synchronisation between them until they are joined: (a) one compiled expression on one shared document, (b) one compiled expression on per-goroutine documents, (c) the one-shot Search on a shared document, (d) concurrent Compile / MustCompile of the same and of different expressions, (e) NewParser per goroutine, (f) a freshly compiled expression and (g) the one-shot Search on a shared Go-struct document (reflection paths; the first calls on a type are the concurrent ones), (h) the one-shot Search with 70 / 140 / 300 distinct expressions in rotation, every goroutine in its own order (package-level caches see hits, misses and evictions at once), (i) one compiled expression whose wildcard / projection right-hand side fails on a quarter of 8 documents, 12 calls per goroutine over those documents (error paths of one call meet the scratch state of another), (j) one compiled expression on documents that are prefixes of one list (same address, different lengths: whatever identifies the same call must look at all of the document), (k) searches of a shared Go-struct document next to goroutines that parse expressions with identifiers nobody has used before; " +
 		"expressions: the function matrix of C06 with document-fed and literal-fed arguments (literals live in the shared AST), sorts of sorts, six expressions 260 operators deep or long (|| and && chains as filter conditions over 24 elements, pipes, nots, nested multi-selects), raw-string-heavy expressions, every node kind, seeded random trees. Monitors: the race detector (any report with a library frame), every goroutine's result against the reference model's allowed set, the compiled AST before/after, and the process surviving (fatal errors are seen by the driver). " +
 		"Non-trivial = distinct (mode, N, expression) rounds whose calls really overlapped in time (measured from per-goroutine timestamps)."
 	r.Floor = 200
@@ -186,7 +186,7 @@ func c12(r *mon.Run) {
 			}
 			var sdoc interface{} // Go-struct form for modes 5 and 6 (reflection paths, per-type state)
 			lower := false
-			if mode == 5 || mode == 6 {
+			if mode == 5 || mode == 6 || mode == 10 {
 				lower = rng.Bool()
 				sdoc = docs.StructDoc(rng, rng.Intn(4))
 				g := &navGen{r: rng, lower: lower}
@@ -304,6 +304,20 @@ func c12(r *mon.Run) {
 							}
 							return nil, nil
 						})
+					case 10:
+						if k%2 == 0 {
+							for j := 0; j < 6; j++ {
+								s.o = apiJP(jp, sdoc)
+							}
+						} else {
+							// parses of expressions nobody has parsed before (new identifiers, new literals): whatever the
+							// parser registers process-wide is read by the searches next door
+							for j := 0; j < 6; j++ {
+								fresh := fmt.Sprintf("fresh_%d_%d_%d.Name_%d[?x%d == 'v%d'] | f%d", i, k, j, j, i, k, j)
+								s.o = mon.Guard(func() (interface{}, error) { _, err := jmespath.NewParser().Parse(fresh); return nil, err })
+								apiCompile(fmt.Sprintf("other_%d_%d.%s", i, j, docs.KeyName("Name", j%2 == 0)))
+							}
+						}
 					case 9:
 						s.o = apiJP(jp, pviews[k])
 					case 8:
@@ -386,6 +400,11 @@ func c12(r *mon.Run) {
 							return
 						}
 					}
+				case 10:
+					if k%2 == 1 {
+						break
+					}
+					fallthrough
 				case 5, 6:
 					so := s.o
 					if so.Err == nil {
